@@ -341,4 +341,312 @@ theorem markAll_just {P : Prog} {e : Nat} {legacy : Bool} {m : Marks} (h : markA
               rw [hτ] at ht
               exact Reach.indexOnly hτ ht hJ3.fns hJ3.builtins
 
+
+/-! ### The other direction in terms of `Reach`: everything reachable is marked -/
+
+/-- every kept function's `Tuple(u)` instructions have the first `Type::Tuple(u)` entry marked -/
+def TT (P : Prog) (m : Marks) : Prop :=
+  ∀ f ∈ m.fns, ∀ F, P.fns[f]? = some F → ∀ u, Instr.tuple u ∈ F.instrs → ∀ t, firstTupleType P u = some t →
+    t ∈ m.types
+
+theorem markInstrs_tt (P : Prog) : ∀ (is : List Instr) (m m' : Marks) (q q' : List Nat),
+    markInstrs P is m q = some (m', q') → TCE P m [] [] →
+    ∀ u, Instr.tuple u ∈ is → ∀ t, firstTupleType P u = some t → t ∈ m'.types
+  | [], _, _, _, _, _, _ => by intro u hu; cases hu
+  | i :: is, m, m', q, q', h, hI => by
+    intro u hu t ht
+    have tail : ∀ (m1 : Marks) (q1 : List Nat), markInstrs P is m1 q1 = some (m', q') → TCE P m1 [] [] →
+        Instr.tuple u ∈ is → t ∈ m'.types := fun m1 q1 h1 hI1 hmem =>
+      markInstrs_tt P is m1 m' q1 q' h1 hI1 u hmem t ht
+    have same : ∀ (m1 : Marks), m1.types = m.types → m1.tuples = m.tuples → TCE P m1 [] [] := by
+      intro m1 e1 e2
+      exact ⟨fun t ht hn τ hτ => by
+                rw [e1] at ht
+                exact (hI.types t ht hn τ hτ).mono (fun x hx => by rw [e1]; exact hx) (fun x hx => by rw [e2]; exact hx),
+             fun u hu hn T hT p hp => by
+                rw [e2] at hu; rw [e1]; exact hI.tuples u hu hn T hT p hp,
+             by rw [e2]; exact hI.nodup, by rw [e1]; exact hI.nodupT⟩
+    cases i with
+    | function id => simp only [markInstrs] at h; exact tail m _ h hI (by simpa using hu)
+    | process pid id => simp only [markInstrs] at h; exact tail m _ h hI (by simpa using hu)
+    | const id => simp only [markInstrs] at h; exact tail _ q h (same _ rfl rfl) (by simpa using hu)
+    | builtin id => simp only [markInstrs] at h; exact tail _ q h (same _ rfl rfl) (by simpa using hu)
+    | isType id =>
+      simp only [markInstrs] at h
+      split at h
+      · cases h
+      · rename_i m1 h1
+        obtain ⟨hI1, _, _⟩ := collectType_spec P _ id m m1 [] [] h1 hI
+        exact tail m1 q h hI1 (by simpa using hu)
+    | tuple id =>
+      simp only [markInstrs] at h
+      split at h
+      · cases h
+      · rename_i m1 h1
+        obtain ⟨hI1, _, _⟩ := collectTuple_spec P _ id m m1 [] [] h1 hI
+        have hu' : u = id ∨ Instr.tuple u ∈ is := by simpa using hu
+        split at h
+        · rename_i hnone
+          rcases hu' with rfl | hmem
+          · rw [hnone] at ht; cases ht
+          · exact tail m1 q h hI1 hmem
+        · rename_i t0 ht0
+          split at h
+          · cases h
+          · rename_i m2 h2
+            obtain ⟨hI2, hmem2, _⟩ := collectType_spec P _ t0 m1 m2 [] [] h2 hI1
+            rcases hu' with rfl | hmem
+            · rw [ht0] at ht; cases ht
+              obtain ⟨_, hty, _⟩ := markInstrs_spec P is m2 m' q q' h hI2
+              exact hty _ hmem2
+            · exact tail m2 q h hI2 hmem
+    | pop => simp only [markInstrs] at h; exact tail m q h hI (by simpa using hu)
+    | dup => simp only [markInstrs] at h; exact tail m q h hI (by simpa using hu)
+    | pick n => simp only [markInstrs] at h; exact tail m q h hI (by simpa using hu)
+    | rotate n => simp only [markInstrs] at h; exact tail m q h hI (by simpa using hu)
+    | reset n => simp only [markInstrs] at h; exact tail m q h hI (by simpa using hu)
+    | load n => simp only [markInstrs] at h; exact tail m q h hI (by simpa using hu)
+    | store => simp only [markInstrs] at h; exact tail m q h hI (by simpa using hu)
+    | get n => simp only [markInstrs] at h; exact tail m q h hI (by simpa using hu)
+    | jump n => simp only [markInstrs] at h; exact tail m q h hI (by simpa using hu)
+    | jumpIf n => simp only [markInstrs] at h; exact tail m q h hI (by simpa using hu)
+    | call => simp only [markInstrs] at h; exact tail m q h hI (by simpa using hu)
+    | tailCall b => simp only [markInstrs] at h; exact tail m q h hI (by simpa using hu)
+    | equal n => simp only [markInstrs] at h; exact tail m q h hI (by simpa using hu)
+    | not => simp only [markInstrs] at h; exact tail m q h hI (by simpa using hu)
+    | spawn => simp only [markInstrs] at h; exact tail m q h hI (by simpa using hu)
+    | send => simp only [markInstrs] at h; exact tail m q h hI (by simpa using hu)
+    | self => simp only [markInstrs] at h; exact tail m q h hI (by simpa using hu)
+    | select => simp only [markInstrs] at h; exact tail m q h hI (by simpa using hu)
+
+theorem markFns_tt (P : Prog) : ∀ (fuel : Nat) (q : List Nat) (m m' : Marks),
+    markFns P fuel q m = some m' → TCE P m [] [] → FT P m → TT P m → TT P m' ∧ ∀ x ∈ m.types, x ∈ m'.types
+  | 0, [], m, m', h, _, _, hT => by
+    simp only [markFns, Option.some.injEq] at h; subst h; exact ⟨hT, fun _ h => h⟩
+  | 0, _ :: _, _, _, h, _, _, _ => by simp [markFns] at h
+  | fuel + 1, [], m, m', h, _, _, hT => by
+    simp only [markFns, Option.some.injEq] at h; subst h; exact ⟨hT, fun _ h => h⟩
+  | fuel + 1, f :: q, m, m', h, hI, hF, hT => by
+    simp only [markFns] at h
+    split at h
+    · exact markFns_tt P fuel q m m' h hI hF hT
+    · have hI1 : TCE P { m with fns := f :: m.fns } [] [] := ⟨hI.types, hI.tuples, hI.nodup, hI.nodupT⟩
+      cases hFn : P.fns[f]? with
+      | none =>
+        rw [hFn] at h
+        simp only at h
+        have hF1 : FT P { m with fns := f :: m.fns } := by
+          intro f' hf' F' hF'
+          rcases List.mem_cons.mp hf' with h | h
+          · subst h; rw [hFn] at hF'; cases hF'
+          · exact hF f' h F' hF'
+        have hT1 : TT P { m with fns := f :: m.fns } := by
+          intro f' hf' F' hF'
+          rcases List.mem_cons.mp hf' with h | h
+          · subst h; rw [hFn] at hF'; cases hF'
+          · exact hT f' h F' hF'
+        exact markFns_tt P fuel q { m with fns := f :: m.fns } m' h hI1 hF1 hT1
+      | some F =>
+        rw [hFn] at h
+        simp only at h
+        split at h
+        · cases h
+        · rename_i m1 h1
+          obtain ⟨hI2, hty, hE1⟩ := collectType_spec P _ F.typeId _ m1 [] [] h1 hI1
+          split at h
+          · cases h
+          · rename_i m2 q2 h2
+            obtain ⟨hI3, hty3, _, hf3, _⟩ := markInstrs_spec P F.instrs m1 m2 q q2 h2 hI2
+            have htt := markInstrs_tt P F.instrs m1 m2 q q2 h2 hI2
+            have hfns2 : m2.fns = f :: m.fns := by rw [hf3, hE1.fns]
+            have hF2 : FT P m2 := by
+              intro f' hf' F' hF'
+              rw [hfns2] at hf'
+              rcases List.mem_cons.mp hf' with h | h
+              · subst h; rw [hFn] at hF'; cases hF'; exact hty3 _ hty
+              · exact hty3 _ (hE1.types _ (hF f' h F' hF'))
+            have hT2 : TT P m2 := by
+              intro f' hf' F' hF' u hu t ht
+              rw [hfns2] at hf'
+              rcases List.mem_cons.mp hf' with h | h
+              · subst h; rw [hFn] at hF'; cases hF'; exact htt u hu t ht
+              · exact hty3 _ (hE1.types _ (hT f' h F' hF' u hu t ht))
+            obtain ⟨a, b⟩ := markFns_tt P fuel q2 m2 m' h hI3 hF2 hT2
+            exact ⟨a, fun x hx => b x (hty3 x (hE1.types x hx))⟩
+
+theorem TT.mono {P : Prog} {m m' : Marks} (h : TT P m) (hE : Ext m m') : TT P m' := by
+  intro f hf F hF u hu t ht
+  rw [hE.fns] at hf
+  exact hE.types _ (h f hf F hF u hu t ht)
+
+theorem isIndexOnly_congr (P : Prog) {m m' : Marks} (h1 : m'.fns = m.fns) (h2 : m'.builtins = m.builtins) (τ : Ty) :
+    isIndexOnly P m' τ = isIndexOnly P m τ := by
+  cases τ <;> simp only [isIndexOnly, h1, h2]
+
+/-- what the mark phase establishes beyond `Closed`: tuple-type entries of constructed tuples, and
+    (current sweep) the index-only entries -/
+theorem markAll_extra {P : Prog} {e : Nat} {legacy : Bool} {m : Marks} (h : markAll P e legacy = some m) :
+    TT P m ∧ (legacy = false → ∀ (t : Nat) (τ : Ty), P.types[t]? = some τ → isIndexOnly P m τ = true → t ∈ m.types) := by
+  unfold markAll at h
+  split at h
+  · cases h
+  · rename_i m0 h0
+    have hI : TCE P ({} : Marks) [] [] := ⟨(fun _ h => by cases h), (fun _ h => by cases h), List.nodup_nil, List.nodup_nil⟩
+    obtain ⟨hI0, _, hE0⟩ := collectTuple_spec P _ 0 _ m0 [] [] h0 hI
+    split at h
+    · cases h
+    · rename_i m1 h1
+      obtain ⟨hI1, _, hE1⟩ := collectTuple_spec P _ 1 m0 m1 [] [] h1 hI0
+      split at h
+      · cases h
+      · rename_i m2 h2
+        have hF1 : FT P m1 := by
+          intro f hf
+          rw [hE1.fns, hE0.fns] at hf; cases hf
+        have hT1 : TT P m1 := by
+          intro f hf
+          rw [hE1.fns, hE0.fns] at hf; cases hf
+        obtain ⟨hI2, _, _, _, _⟩ := markFns_spec P _ [e] m1 m2 h2 hI1 hF1
+        obtain ⟨hT2, _⟩ := markFns_tt P _ [e] m1 m2 h2 hI1 hF1 hT1
+        split at h
+        · cases h
+        · rename_i m3 h3
+          obtain ⟨hI3, hE3, _⟩ := markBuiltins_spec P m2.builtins m2 m3 h3 hI2
+          have hT3 := hT2.mono hE3
+          split at h
+          · rename_i hleg
+            simp only [Option.some.injEq] at h
+            subst h
+            exact ⟨hT3, fun hl => by rw [hl] at hleg; cases hleg⟩
+          · obtain ⟨_, hall, hE4⟩ := collectTypes_spec P _ _ m3 m [] [] h hI3
+            refine ⟨hT3.mono hE4, fun _ t τ hτ hio => hall t ?_⟩
+            rw [isIndexOnly_congr P hE4.fns hE4.builtins] at hio
+            simp only [indexOnly, List.mem_filter, List.mem_range, hτ, hio, and_true]
+            rcases Nat.lt_or_ge t P.types.size with h1 | h1
+            · exact h1
+            · rw [Array.getElem?_eq_none h1] at hτ; cases hτ
+
+
+theorem isIndexOnly_mono (P : Prog) {m0 m : Marks} (hf : ∀ f ∈ m0.fns, f ∈ m.fns)
+    (hb : ∀ b ∈ m0.builtins, b ∈ m.builtins) {τ : Ty} (h : isIndexOnly P m0 τ = true) :
+    isIndexOnly P m τ = true := by
+  cases τ with
+  | process s r =>
+    cases s with
+    | none => simp [isIndexOnly] at h
+    | some s =>
+      cases r with
+      | none => simp [isIndexOnly] at h
+      | some r =>
+        simp only [isIndexOnly, List.any_eq_true] at h ⊢
+        obtain ⟨f, hfm, hp⟩ := h
+        exact ⟨f, hf f hfm, hp⟩
+  | callable p r v =>
+    simp only [isIndexOnly, Bool.and_eq_true, List.any_eq_true] at h ⊢
+    obtain ⟨hv, b, hbm, hp⟩ := h
+    exact ⟨hv, b, hb b hbm, hp⟩
+  | int => simp [isIndexOnly] at h
+  | bin => simp [isIndexOnly] at h
+  | ref => simp [isIndexOnly] at h
+  | tuple id => simp [isIndexOnly] at h
+  | part n fs => simp [isIndexOnly] at h
+  | cycle d => simp [isIndexOnly] at h
+  | union ids => simp [isIndexOnly] at h
+  | resource n => simp [isIndexOnly] at h
+  | var n => simp [isIndexOnly] at h
+
+theorem rank_mem {l : List Nat} {a i : Nat} (h : (rankMap (sortAsc l)).get a = some i) : a ∈ l :=
+  mem_sortAsc.mp (List.mem_of_getElem? (rankMap_get h))
+
+theorem mapOpt_exists_of_mem {α β : Type} {f : α → Option β} {l : List α} {l' : List β}
+    (h : mapOpt f l = some l') {a : α} (ha : a ∈ l) : ∃ b, f a = some b := by
+  obtain ⟨i, hi⟩ := List.mem_iff_getElem?.mp ha
+  rcases mapOpt_get? h i with ⟨hn, _⟩ | ⟨a2, b, h1, _, h3⟩
+  · rw [hi] at hn; cases hn
+  · rw [hi] at h1; cases h1
+    exact ⟨b, h3⟩
+
+/-- is the item among the marks? (resource NAMES are not tracked by `Closed`; they are covered by ⊆) -/
+def InMarks (m : Marks) : ShakeItem → Prop
+  | .fn f => f ∈ m.fns
+  | .const c => c ∈ m.consts
+  | .tuple u => u ∈ m.tuples
+  | .ty t => t ∈ m.types
+  | .builtin b => b ∈ m.builtins
+  | .res _ => True
+
+/-- **everything reachable is marked** (given that the sweep succeeds on these marks, which is how the
+    instruction operands are known to be marked) -/
+theorem reach_marked {P : Prog} {e : Nat} {m : Marks} {out : ShakeOut} (hm : markAll P e false = some m)
+    (hs : sweep P e m = some out) : ∀ x, Reach P e x → InMarks m x := by
+  have hc := markAll_closed hm
+  obtain ⟨hren, hsr⟩ := sweep_structRenaming hs hc
+  obtain ⟨hTT, hIO⟩ := markAll_extra hm
+  -- every instruction of a kept function has an image, i.e. its operand has a rank
+  have instr : ∀ f ∈ m.fns, ∀ F, P.fns[f]? = some F → ∀ i ∈ F.instrs, ∃ i', renameInstr (shakeRen P m) i = some i' := by
+    intro f hf F hF i hi
+    obtain ⟨f', hf'⟩ := rankMap_get_of_mem (mem_sortAsc.mpr hf)
+    have hg : out.ren.fn.get f = some f' := by rw [hren]; exact hf'
+    obtain ⟨F0, F', hF0, _, _, hins, _⟩ := hsr.fns f f' hg
+    rw [hF] at hF0; cases hF0
+    rw [hren] at hins
+    exact mapOpt_exists_of_mem hins hi
+  intro x hr
+  induction hr with
+  | entry => exact hc.entry
+  | nil => exact rank_mem hc.rank0
+  | ok => exact rank_mem hc.rank1
+  | fnType _ hF ih => exact hc.fns _ ih _ hF
+  | callee _ hF hi ih =>
+    obtain ⟨i', h'⟩ := instr _ ih _ hF _ hi
+    simp only [renameInstr, Option.map_eq_some_iff] at h'
+    obtain ⟨g', hg', _⟩ := h'
+    exact rank_mem hg'
+  | procFn _ hF hi ih =>
+    obtain ⟨i', h'⟩ := instr _ ih _ hF _ hi
+    simp only [renameInstr, Option.map_eq_some_iff] at h'
+    obtain ⟨g', hg', _⟩ := h'
+    exact rank_mem hg'
+  | const _ hF hi ih =>
+    obtain ⟨i', h'⟩ := instr _ ih _ hF _ hi
+    simp only [renameInstr, Option.map_eq_some_iff] at h'
+    obtain ⟨g', hg', _⟩ := h'
+    exact rank_mem hg'
+  | builtin _ hF hi ih =>
+    obtain ⟨i', h'⟩ := instr _ ih _ hF _ hi
+    simp only [renameInstr, Option.map_eq_some_iff] at h'
+    obtain ⟨g', hg', _⟩ := h'
+    exact rank_mem hg'
+  | isType _ hF hi ih =>
+    obtain ⟨i', h'⟩ := instr _ ih _ hF _ hi
+    simp only [renameInstr, Option.map_eq_some_iff] at h'
+    obtain ⟨g', hg', _⟩ := h'
+    exact rank_mem hg'
+  | mkTuple _ hF hi ih =>
+    obtain ⟨i', h'⟩ := instr _ ih _ hF _ hi
+    simp only [renameInstr, Option.map_eq_some_iff] at h'
+    obtain ⟨g', hg', _⟩ := h'
+    exact rank_mem hg'
+  | mkTupleType _ hF hi ht ih => exact hTT _ ih _ hF _ hi _ ht
+  | @child t τ x _ hτ hx ih =>
+    have hmk := hc.types t ih τ hτ
+    cases τ with
+    | tuple id => simp [tyChildren] at hx
+    | int => exact hmk x hx
+    | bin => exact hmk x hx
+    | ref => exact hmk x hx
+    | part n fs => exact hmk x hx
+    | callable p r v => exact hmk x hx
+    | cycle d => exact hmk x hx
+    | union ids => exact hmk x hx
+    | process s r => exact hmk x hx
+    | resource n => exact hmk x hx
+    | var n => exact hmk x hx
+  | tupleOf _ hτ ih => exact hc.types _ ih _ hτ
+  | resOf _ _ _ => trivial
+  | field _ hT hp ih => exact hc.tuples _ ih _ hT _ hp
+  | bParam _ hB ih => exact (hc.builtins _ ih _ hB).1
+  | bResult _ hB ih => exact (hc.builtins _ ih _ hB).2
+  | indexOnly hτ hio _ _ ihf ihb => exact hIO rfl _ _ hτ (isIndexOnly_mono P ihf ihb hio)
+
 end QM.Packaging
